@@ -1815,6 +1815,16 @@ impl<'p> Interp<'p> {
 					None => Err(Ctl::Stop(format!("missing parameter {}", n))),
 				}
 			}
+			"param_or" => {
+				let n = s(&args[0]);
+				match self.params.get(&n) {
+					Some(v) => {
+						let i: i128 = v.parse().map_err(|_| Ctl::Stop(format!("parameter {} is not an integer", n)))?;
+						Ok(V::Int(i, ITy::I64))
+					}
+					None => Ok(args[1].clone()),
+				}
+			}
 			"param_str" => {
 				let n = s(&args[0]);
 				match self.params.get(&n) {
